@@ -230,6 +230,8 @@ pub struct Sem<'a> {
     /// differs between TableGen versions)
     hidden: Vec<String>,
     uninit: std::collections::BTreeSet<usize>,
+    /// inherited field declarations that some record declared again
+    redeclared: std::collections::BTreeSet<usize>,
     wrote_unset: bool,
     mc_depth: usize,
     /// number of values written so far whose type the indexer cannot compute
@@ -282,6 +284,7 @@ impl<'a> Sem<'a> {
             rec_base: None,
             hidden: Vec::new(),
             uninit: Default::default(),
+            redeclared: Default::default(),
             wrote_unset: false,
             mc_depth: 0,
             untyped_uses: 0,
@@ -1190,7 +1193,7 @@ impl<'a> Sem<'a> {
     fn has_field_access(&self, ty: &Ty) -> bool {
         self.defs.iter().any(|d| {
             !self.name_is_local(&d.name)
-                && d.class.as_deref().and_then(|c| self.class(c)).map(|ci| ci.fields.values().any(|(t, fd)| t == ty && !self.p.decls[*fd].overridden && !self.uninit.contains(fd))).unwrap_or(false)
+                && d.class.as_deref().and_then(|c| self.class(c)).map(|ci| ci.fields.values().any(|(t, fd)| t == ty && !self.p.decls[*fd].overridden && !self.uninit.contains(fd) && !self.redeclared.contains(fd))).unwrap_or(false)
         })
     }
 
@@ -1205,7 +1208,7 @@ impl<'a> Sem<'a> {
             }
             if let Some(ci) = d.class.as_deref().and_then(|c| self.class(c)) {
                 for (fname, (fty, fdecl)) in &ci.fields {
-                    if fty == ty && !self.p.decls[*fdecl].overridden && !self.uninit.contains(fdecl) {
+                    if fty == ty && !self.p.decls[*fdecl].overridden && !self.uninit.contains(fdecl) && !self.redeclared.contains(fdecl) {
                         cands.push((d.name.clone(), d.decl, fname.clone(), *fdecl));
                         def_class.insert(d.name.clone(), ci.name.clone());
                     }
@@ -1228,7 +1231,7 @@ impl<'a> Sem<'a> {
             }
             if let Some(ci) = self.class(&c) {
                 for (fname, (fty, fdecl)) in &ci.fields {
-                    if fty == ty && !self.p.decls[*fdecl].overridden && !self.uninit.contains(fdecl) {
+                    if fty == ty && !self.p.decls[*fdecl].overridden && !self.uninit.contains(fdecl) && !self.redeclared.contains(fdecl) {
                         cands.push((vn.clone(), vd, fname.clone(), *fdecl));
                     }
                 }
@@ -1487,6 +1490,17 @@ impl<'a> Sem<'a> {
                             ty = if self.rng.chance(1, 2) { Ty::Class(c) } else { Ty::List(Box::new(Ty::Class(c))) };
                         }
                     }
+                    // now and then an inherited field is declared again, with its type (a declaration of this
+                    // record: an outline entry of its own, and what the name means from here on)
+                    let again: Vec<(String, Ty)> = fields
+                        .iter()
+                        .filter(|(_, (_, d))| self.p.decls[*d].owner != Some(owner) && !self.uninit.contains(d) && !self.p.decls[*d].overridden)
+                        .map(|(n, (t, _))| (n.clone(), t.clone()))
+                        .collect();
+                    let redeclared = if !again.is_empty() && self.rng.chance(1, 6) && self.on("redeclared-inherited-field") { Some(again[self.rng.below(again.len())].clone()) } else { None };
+                    if let Some((_, t)) = &redeclared {
+                        ty = t.clone();
+                    }
                     if self.rng.chance(1, 8) {
                         self.w("field ");
                     }
@@ -1496,14 +1510,22 @@ impl<'a> Sem<'a> {
                     // record the field is the innermost declaration of that name
                     let base = self.rec_base.unwrap_or(0).min(self.scopes.len());
                     let outer: Vec<String> = self.scopes[..base].iter().flatten().map(|v| v.name.clone()).filter(|n| !fields.contains_key(n) && !self.rec_targs.iter().any(|t| t.0 == *n)).collect();
-                    let name = if !outer.is_empty() && self.rng.chance(1, 6) && self.on("field-shadows-variable") {
+                    let name = if let Some((n, _)) = &redeclared {
+                        self.rec_fields.retain(|f| f.0 != *n);
+                        // (a record that declares the field again answers `record.field` with its own
+                        // declaration: the inherited one is no longer reached through defs)
+                        if let Some((_, d0)) = fields.get(n) {
+                            self.redeclared.insert(*d0);
+                        }
+                        n.clone()
+                    } else if !outer.is_empty() && self.rng.chance(1, 6) && self.on("field-shadows-variable") {
                         self.p.feat.shadowing = true;
                         outer[self.rng.below(outer.len())].clone()
                     } else {
                         self.fresh("f")
                     };
                     let d = self.declare(DeclKind::Field, &name, Some(ty.clone()), doc, Some(owner));
-                    let mut init = self.rng.chance(3, 4);
+                    let mut init = self.rng.chance(3, 4) || redeclared.is_some();
                     // the field is in scope in its own initialiser (where mentioning it is an error)
                     self.hidden.push(name.clone());
                     if init {
@@ -1833,7 +1855,7 @@ impl<'a> Sem<'a> {
             .classes
             .iter()
             .map(|c| (c.name.clone(), self.defs_of_class(&c.name)))
-            .filter(|(c, ds)| ds.len() >= 2 && self.class(c).map(|ci| ci.fields.values().any(|(t, fd)| *t == Ty::Int && !self.p.decls[*fd].overridden && !self.uninit.contains(fd))).unwrap_or(false))
+            .filter(|(c, ds)| ds.len() >= 2 && self.class(c).map(|ci| ci.fields.values().any(|(t, fd)| *t == Ty::Int && !self.p.decls[*fd].overridden && !self.uninit.contains(fd) && !self.redeclared.contains(fd))).unwrap_or(false))
             .collect();
         if !over_defs.is_empty() && self.rng.chance(1, 4) && self.on("foreach-over-defs") {
             let (c, ds) = over_defs[self.rng.below(over_defs.len())].clone();
@@ -1927,13 +1949,33 @@ impl<'a> Sem<'a> {
         let top = self.depth == 0;
         let ds = self.in_defset;
         self.cond_depth += 1;
-        self.block(|s| s.inner_statement(), true);
+        self.if_body();
         if self.rng.chance(1, 2) {
             self.w(" else ");
-            self.block(|s| s.inner_statement(), true);
+            self.if_body();
         }
         self.cond_depth -= 1;
         self.stmt_end("If", start, None, top, ds);
+    }
+
+    /// a branch of an `if`: a block, or - without braces - one statement; a scope of its own either way
+    fn if_body(&mut self) {
+        if !(self.rng.chance(1, 5) && self.on("unbraced-if-body")) {
+            return self.block(|s| s.inner_statement(), true);
+        }
+        self.depth += 1;
+        self.scopes.push(Vec::new());
+        self.p.feat.nested_scopes = self.p.feat.nested_scopes.max(self.scopes.len());
+        if self.rng.chance(1, 2) {
+            self.defvar_stmt();
+        } else {
+            self.def_stmt("", false);
+        }
+        let popped = self.scopes.pop().unwrap();
+        for v in popped {
+            self.dead.push((v.name, v.decl));
+        }
+        self.depth -= 1;
     }
 
     fn let_stmt(&mut self) {
@@ -1968,13 +2010,23 @@ impl<'a> Sem<'a> {
             self.value(&t2, 1);
         }
         self.w(" in ");
-        self.w("{");
+        // without braces the body is one statement (still a scope of its own)
+        let braced = !(self.rng.chance(1, 5) && self.on("unbraced-let-body"));
+        if braced {
+            self.w("{");
+        }
         self.indent += 1;
         self.depth += 1;
         self.scopes.push(Vec::new());
-        let k = 1 + self.rng.below(2);
+        let lone_defvar = !braced && self.rng.chance(1, 6);
+        let k = if lone_defvar { 0 } else if braced { 1 + self.rng.below(2) } else { 1 };
+        if lone_defvar {
+            self.defvar_stmt();
+        }
         for _ in 0..k {
-            self.nl();
+            if braced {
+                self.nl();
+            }
             let s2 = self.stmt_begin();
             self.w("def ");
             let name = self.fresh("ld");
@@ -1988,7 +2040,7 @@ impl<'a> Sem<'a> {
             }
             self.stmt_end("Def", s2, Some(decl), false, ds);
         }
-        if self.rng.chance(1, 3) {
+        if braced && self.rng.chance(1, 3) {
             self.nl();
             self.defvar_stmt();
         }
@@ -1998,8 +2050,10 @@ impl<'a> Sem<'a> {
         }
         self.depth -= 1;
         self.indent -= 1;
-        self.nl();
-        self.w("}");
+        if braced {
+            self.nl();
+            self.w("}");
+        }
         self.stmt_end("Let", start, None, top, ds);
     }
 
